@@ -15,7 +15,7 @@ import ast
 from ..model import AnalysisError
 from ..terms import T, walk_terms
 from ..absint import AV, TOP, cav
-from ..walk import (data_derives, ret_alts, call_parts, call_arg, is_call_to, const_val, NOVAL, strip_views, unwrap_gamma, axis_uses, same_value, struct_eq, cond_polarity, loop_role, index_chain, is_full_slice, last_axis_product_sum, index_extent, indexed_values)
+from ..walk import (data_derives, ret_alts, call_parts, call_arg, is_call_to, const_val, NOVAL, strip_views, unwrap_gamma, axis_uses, same_value, struct_eq, cond_polarity, loop_role, index_chain, is_full_slice, last_axis_product_sum, index_extent, indexed_values, gamma_paths, possible_consts)
 from ..lin import linearise, product_factors, peel
 
 S = 'pb_bss.evaluation.sxr_module::'
@@ -73,6 +73,76 @@ def check_ratios(run, A):
             a = peel(call_arg(peel(lg[0]), 0))
             ok = a.op == 'binop' and a.args[0] == 'Div' and strip_views(a.args[1]).op == 'param' and strip_views(a.args[1]).args[0] == 'S' and strip_views(a.args[2]).op == 'param'
     run.check(ok, 'IDENT', '_sxr: 10 log10(S / X)', fn.loc(), '', '_sxr is not the pure ratio 10*log10(S / X)', construct=f'IDENT::{q}::ratio')
+
+
+def _sum_parts(t):
+    t0 = strip_views(t)
+    if t0.op == 'binop' and t0.args[0] == 'Add':
+        return _sum_parts(t0.args[1]) + _sum_parts(t0.args[2])
+    return [t]
+
+
+def check_pooling(run, A):
+    """ORDER (input_sxr): the sensors are pooled in the power domain.  The identity 1/SDR = 1/SIR + 1/SNR is a statement about three
+    ratios of ONE triple of powers; with `average_channels` (the default) that triple is the mean of S, I, N over the sensor axis, formed
+    before the ratios.  A dB value - the result of `_sxr` - may be averaged over the source axis (average_sources) but not over the
+    sensors: the mean of logarithms of per-sensor ratios is not the ratio of any common triple."""
+    q = S + 'input_sxr'
+    fn = A.prog.func(q)
+    g = A.graphs.get(fn)
+    if 'average_channels' not in fn.params:
+        raise AnalysisError('input_sxr: option average_channels vanished')
+    calls = [e.term for e in g.events if e.kind == 'call' and call_parts(e.term)[0] == S + '_sxr']
+    n, bad = 0, []
+    for c in calls:
+        for pos in (0, 1):
+            for part in _sum_parts(call_arg(c, pos)):
+                pooled, unpooled_under_option, other = 0, [], []
+                for conds, leaf in gamma_paths(part):
+                    on = [pol for (ct, pol) in conds.values() if strip_views(ct).op == 'param' and strip_views(ct).args[0] == 'average_channels']
+                    leaf0 = strip_views(leaf)
+                    red = is_call_to(leaf0, 'numpy.mean', 'method:mean', 'numpy.average')
+                    if on and on[0]:
+                        ax = call_arg(leaf0, 1, 'axis') if red else None
+                        axs = possible_consts(ax) if ax is not None else None
+                        if red and axs is not None and axs <= {-1, 1} and not data_derives_call(call_arg(leaf0, 0), S + '_sxr'):
+                            pooled += 1
+                        elif red and axs is not None and axs <= {-1, 0} and data_derives(call_arg(leaf0, 0), 'noise') and not data_derives(call_arg(leaf0, 0), 'images'):
+                            pooled += 1     # the noise power has the sensor axis only
+                        elif red and axs is not None:
+                            unpooled_under_option.append(f'mean over axis {sorted(axs)}')
+                        else:
+                            other.append(leaf0)
+                    elif not on:
+                        unpooled_under_option.append('the operand does not depend on average_channels')
+                n += 1
+                if other and not unpooled_under_option:
+                    raise AnalysisError(f'input_sxr: the pooling of a power under average_channels is no longer recognised ({other[0]!r:.120})')
+                if not (pooled >= 1 and not unpooled_under_option):
+                    bad.append((c, unpooled_under_option))
+    if n < 6:
+        raise AnalysisError(f'input_sxr: expected the operands S, I, N of three ratios, found {n}')
+    run.check(not bad, 'ORDER', 'input_sxr: with average_channels the powers are pooled over the sensors before the ratio', fn.loc(bad[0][0].node if bad else None), '',
+              f'{len(bad)} operand(s) of _sxr are not the sensor mean of a power when average_channels holds: ' + '; '.join((bad[0][1] if bad else [])[:2]),
+              construct=f'ORDER::{q}::pooled-before-ratio')
+    run.count('C19 power operands of _sxr examined (pooling)', n)
+    # no reduction of a dB value over the sensor axis
+    m = 0
+    for t, operand, ax, name, e in axis_uses(g):
+        if operand is None or not data_derives_call(operand, S + '_sxr'):
+            continue
+        m += 1
+        axs = possible_consts(ax) if ax is not None else {None}
+        if axs is None:
+            raise AnalysisError(f'input_sxr: axis of a reduction of the dB values is not resolvable at line {t.lineno}')
+        run.check(axs <= {0, -2}, 'ORDER', 'input_sxr: dB values are averaged over the source axis only', fn.loc(t.node), '',
+                  f'a ratio in dB is reduced over axis {sorted(axs, key=str)}: sensors must be pooled in the power domain (1/SDR = 1/SIR + 1/SNR needs one common power triple)',
+                  construct=f'ORDER::{q}::db-reduced-over-sensors')
+    run.count('C19 reductions of dB values examined', m)
+
+
+def data_derives_call(t, callee):
+    return t is not None and any(x.op == 'call' and call_parts(x)[0] == callee for x in walk_terms(t))
 
 
 def _dim_of(t, pname, index):
@@ -389,6 +459,7 @@ def check(run):
         'the set_snr factor. dB values and scaling laws as numbers are not decided.')
     run.trusted = ['metric definitions in the property statement']
     check_ratios(run, A)
+    check_pooling(run, A)
     check_self_exclusion(run, A)
     check_selection(run, A)
     check_return_dict(run, A)
